@@ -867,27 +867,42 @@ func (f *transformationCallable) clone(v reflect.Value) (reflect.Value, error) {
 		return undefined, err
 	}
 
-	return reflect.ValueOf(restoreNulls(dest)), nil
+	return reflect.ValueOf(restoreNulls(dest, v)), nil
 }
 
-// restoreNulls replaces the nil interface values that the JSON
-// decoder produces for null with the evaluator's null, so that a
-// null member of the copy is still there (and still null) for the
-// pattern, the update and the caller, as it is in the original.
-func restoreNulls(v interface{}) interface{} {
-	switch x := v.(type) {
+// restoreNulls puts the evaluator's null back where the original
+// had one. The JSON decoder produces a nil interface value for
+// every null; that is how a null of the input document is held (and
+// it stays that way in the copy), but a null written in the program
+// is a distinct typed value, and as a nil interface it would read
+// as "no value": the copy would have lost a member that the
+// original has.
+func restoreNulls(copied interface{}, orig reflect.Value) interface{} {
+
+	orig = jtypes.Resolve(orig)
+
+	switch x := copied.(type) {
 	case nil:
-		return null
+		if orig.IsValid() && orig.Kind() == reflect.Ptr && orig.IsNil() {
+			return null
+		}
 	case []interface{}:
-		for i := range x {
-			x[i] = restoreNulls(x[i])
+		if jtypes.IsArray(orig) && orig.Len() == len(x) {
+			for i := range x {
+				x[i] = restoreNulls(x[i], orig.Index(i))
+			}
 		}
 	case map[string]interface{}:
-		for k := range x {
-			x[k] = restoreNulls(x[k])
+		if jtypes.IsMap(orig) && orig.Type().Key().Kind() == reflect.String {
+			for _, k := range orig.MapKeys() {
+				if v, ok := x[k.String()]; ok {
+					x[k.String()] = restoreNulls(v, orig.MapIndex(k))
+				}
+			}
 		}
 	}
-	return v
+
+	return copied
 }
 
 // A regexCallable represents a JSONata regular expression. It's
